@@ -3,8 +3,8 @@
    steps, i.e. every interleaving of any number of producer / consumer / releaser threads, any number
    of objects and FIFOs.  The ring-layer model SV.SRMring (circular buffers, live counts, shutdown) is
    what tools/checks/c23.py runs in lockstep with the real code.  Statements only. *)
-From Coq Require Import List Arith Permutation.
-From SV Require SRM SRMorder Proofs_C23 SRMring RingRefine GuardFlow.
+From Coq Require Import List Arith Permutation ZArith.
+From SV Require SRM SRMorder Proofs_C23 SRMring RingRefine SRMrelease GuardFlow.
 From SVG Require GuardGen.
 Import ListNotations.
 
@@ -57,3 +57,18 @@ Proof. vm_compute. reflexivity. Qed.
 Theorem srm_guard_meaning : forall body o, GuardFlow.fn_ok body = true -> GuardFlow.exec body [] o ->
   (o = GuardFlow.Normal [] \/ o = GuardFlow.Returned []) /\ o <> GuardFlow.Fault.
 Proof. intros body o H He. split; [exact (GuardFlow.fn_ok_sound body o H He) | exact (GuardFlow.touch_guarded body H o He)]. Qed.
+
+(* surplus releases: the release that returns an object to its pool leaves EB_ObjectWrapperReleasedValue in its count, and any
+   number (below 2^32 - 1) of further releases of that wrapper before it is handed out again changes neither queue: the object
+   is not duplicated in the pool and cannot reach two holders (ring-layer model, in lockstep with svt_release_object) *)
+Theorem srm_released_object_is_protected : forall s x w n, nth_error (SRMring.wraps s) x = Some w ->
+  (0 <= SRMring.live w <= 1)%Z -> SRMring.ren w = true -> (Z.of_nat n < SRMring.released_marker)%Z ->
+  let s1 := fst (SRMring.step s (SRMring.Release x)) in
+  SRMring.emptyq (SRMrelease.releases n s1 x) = SRMring.emptyq s1 /\ SRMring.fullq (SRMrelease.releases n s1 x) = SRMring.fullq s1.
+Proof. exact SRMrelease.released_object_is_protected. Qed.
+
+Theorem srm_release_pushes_only_on_last : forall s x w, nth_error (SRMring.wraps s) x = Some w -> (1 < SRMring.live w)%Z ->
+  SRMring.step s (SRMring.Release x) =
+  ({| SRMring.emptyq := SRMring.emptyq s; SRMring.fullq := SRMring.fullq s;
+      SRMring.wraps := SRMring.set_nth (SRMring.wraps s) x {| SRMring.live := (SRMring.live w - 1)%Z; SRMring.ren := SRMring.ren w |} |}, SRMring.RNone).
+Proof. exact SRMrelease.release_above_one_keeps_queues. Qed.
